@@ -506,6 +506,7 @@ func c11Judge(c *c11Case, wr *worldRun) *c11Verdict {
 		}
 	}
 	// ---- clause 2: warnings of every decodable, undamaged response are shown (also when it carries an error) ----
+	warnWant := map[string]int{}
 	if !c.Quiet {
 		for _, pr := range res.Procs {
 			pl := byPath[pr.Path]
@@ -514,8 +515,13 @@ func c11Judge(c *c11Case, wr *worldRun) *c11Verdict {
 			}
 			if ws, ok := pl.Script["warnings"].([]interface{}); ok {
 				for _, w := range ws {
-					if s, _ := w.(string); s != "" && !strings.Contains(wr.Stderr, s) {
-						return bad("warning-lost", "warning-lost", "plugin %s's warning %q is not shown", pl.Name, s)
+					// every run of the plugin (one per target language) that gave the warning counts: shown each time
+					s, _ := w.(string)
+					if s != "" {
+						warnWant[s]++
+					}
+					if s != "" && strings.Count(wr.Stderr, s) < warnWant[s] {
+						return bad("warning-lost", "warning-lost", "plugin %s's warning %q was given %d time(s) by plugin runs of this invocation and is shown %d time(s)", pl.Name, s, warnWant[s], strings.Count(wr.Stderr, s))
 					}
 				}
 				v.Trivia["warnings-checked"]++
@@ -679,6 +685,7 @@ func c11Judge(c *c11Case, wr *worldRun) *c11Verdict {
 	}
 
 	// ---- clause 2: warnings shown ----
+	warnWant = map[string]int{}
 	if !c.Quiet {
 		for _, pr := range res.Procs {
 			pl := byPath[pr.Path]
@@ -689,8 +696,13 @@ func c11Judge(c *c11Case, wr *worldRun) *c11Verdict {
 			}
 			if ws, ok := pl.Script["warnings"].([]interface{}); ok {
 				for _, w := range ws {
-					if s, _ := w.(string); s != "" && !strings.Contains(wr.Stderr, s) {
-						return bad("warning-lost", "warning-lost", "plugin %s's warning %q is not shown", pl.Name, s)
+					// every run of the plugin (one per target language) that gave the warning counts: shown each time
+					s, _ := w.(string)
+					if s != "" {
+						warnWant[s]++
+					}
+					if s != "" && strings.Count(wr.Stderr, s) < warnWant[s] {
+						return bad("warning-lost", "warning-lost", "plugin %s's warning %q was given %d time(s) by plugin runs of this invocation and is shown %d time(s)", pl.Name, s, warnWant[s], strings.Count(wr.Stderr, s))
 					}
 				}
 			}
@@ -888,6 +900,13 @@ func c11Check(a *artefacts, tier string, seed uint64, replay string) int {
 				pp.Name, pp.Alt, pp.ByPath = c.Plugins[0].Name, "-earlier", true
 			}
 			pre.Plugins = []c11Plugin{pp}
+			if r.Chance(1, 3) && len(c.Plugins) > 0 {
+				// the same command run twice in one process: the earlier invocation has the very same plugins
+				// (same executables, same options, hence the same answers and warnings) and the same time limit
+				pre.Plugins = append([]c11Plugin(nil), c.Plugins...)
+				pre.Cfg = c.Cfg
+				pre.Limit = c.Limit
+			}
 			c.Prelude = append(c.Prelude, pre)
 		}
 		// with two languages, some faulty plugins misbehave for one language only
